@@ -5,6 +5,7 @@ import (
 	"errors"
 	"fmt"
 	"sort"
+	"strings"
 	"sync"
 	"time"
 
@@ -61,7 +62,14 @@ func runGate(c Case) interface{} {
 	}
 	tpl := docOf(codeNode("vpGate(id)", true, true))
 	via, _ := c["via"].(string)
-	eng, err := newEngine(EngineSpec{Files: map[string]string{"g": tpl}, RateLimit: n, RateLimitVia: via,
+	tname, mname := "g", "nope"
+	if v, ok := c["tname"].(string); ok && v != "" {
+		tname = v
+	}
+	if v, ok := c["mname"].(string); ok && v != "" {
+		mname = v
+	}
+	eng, err := newEngine(EngineSpec{Files: map[string]string{tname: tpl}, RateLimit: n, RateLimitVia: via,
 		Extra: map[string]flamingo.TemplateFunc{"vpGate": plainFunc(gateFn)}})
 	if err != nil {
 		return J{"class": "harness-error", "msg": err.Error()}
@@ -153,9 +161,9 @@ func runGate(c Case) interface{} {
 			g.release[id] = make(chan string, 1)
 			g.mu.Unlock()
 			active[id] = true
-			start(id, "g", ctx)
+			start(id, tname, ctx)
 		case "startMissing":
-			start(id, "nope", context.Background())
+			start(id, mname, context.Background())
 			expectFinished++ // unless it has to wait: handled by the min() below (it counts as active until finished)
 			active[id] = true
 		case "startCancelled":
@@ -168,7 +176,7 @@ func runGate(c Case) interface{} {
 			exits[id] = "success"
 			cancels[id] = cancel
 			active[id] = true
-			start(id, "g", ctx)
+			start(id, tname, ctx)
 		case "release":
 			g.mu.Lock()
 			ch, isIn := g.release[id], g.inside[id]
@@ -271,7 +279,7 @@ func runGate(c Case) interface{} {
 			g.mu.Lock()
 			g.release[id] = make(chan string, 1)
 			g.mu.Unlock()
-			start(id, "g", context.Background())
+			start(id, tname, context.Background())
 		}
 		ob := observe(n, -1)
 		fresh = len(ob["inside"].([]int))
@@ -351,6 +359,17 @@ func genC09(r *Rng, n int, tier string, emit func(Case)) {
 		case 1:
 			via = fmt.Sprintf("after:%d", []int{8, 1, 0, 3}[rr.Intn(4)]) // an earlier option must not survive a later one
 		}
-		emit(Case{"kind": "gate", "n": lim, "via": via, "script": script, "model_needs_impl": true, "bucket": fmt.Sprintf("N=%d", lim), "nops": len(script)})
+		// the name of the template is data like any other: names outside ASCII, with blanks, and longer than a metrics tag value
+		tname, mname := "g", "nope"
+		long := "shop/" + strings.Repeat("kategorie-", 12) + "/" + strings.Repeat("produktliste-", 12) + "/detail"
+		switch rr.Intn(6) {
+		case 0:
+			tname = []string{"grüße", "页面/首页", "a b", "Ünï/cødé", long}[rr.Intn(5)]
+		case 1:
+			mname = []string{"nöpe", "不存在", "no pe", long + "-x"}[rr.Intn(4)]
+		case 2:
+			tname, mname = "seite/übersicht", "seite/überblick"
+		}
+		emit(Case{"kind": "gate", "n": lim, "via": via, "tname": tname, "mname": mname, "script": script, "model_needs_impl": true, "bucket": fmt.Sprintf("N=%d", lim), "nops": len(script)})
 	}
 }
